@@ -43,7 +43,11 @@ Plain == { [ver |-> v, fin |-> f, tag |-> t, sum |-> 0, idok |-> TRUE] :
 Odd   == { [ver |-> v, fin |-> FALSE, tag |-> "a", sum |-> 1, idok |-> TRUE] : v \in 0..MaxVer }
          \cup
          { [ver |-> v, fin |-> FALSE, tag |-> "a", sum |-> 0, idok |-> FALSE] : v \in 0..MaxVer }
-Cand == Plain \cup Odd
+(* "n" (narrow): a well-formed allocation with the channel's total that has one balance column fewer than the      *)
+(* channel has participants.  Update refuses it; the unchecked ForceUpdate stages it like any other state, with one *)
+(* signature slot per PARTICIPANT.                                                                                 *)
+Narrow == { [ver |-> v, fin |-> FALSE, tag |-> "n", sum |-> 0, idok |-> TRUE] : v \in 0..MaxVer }
+Cand == Plain \cup Odd \cup Narrow
 S0 == [ver |-> 0, fin |-> FALSE, tag |-> "a", sum |-> 0, idok |-> TRUE]  \* the initial state built by Init
 Twin(s) == [s EXCEPT !.tag = IF s.tag = "a" THEN "b" ELSE "a"]
 
@@ -70,6 +74,7 @@ TypeOK == /\ phase \in Phases
 (* machine.ValidTransition + StateMachine.validTransition for the no-app.  *)
 ValidTrans(c) == /\ current.st # NoSt
                  /\ c.idok
+                 /\ c.tag # "n"
                  /\ ~current.st.fin
                  /\ c.ver = current.st.ver + 1
                  /\ c.sum = current.st.sum
